@@ -117,3 +117,138 @@ def craft(cls, rng, tries=200000):
 
 CLASSES = ["fin_h0_carry", "fin_h0_carry_h1_odd", "fin_wrap_only", "chain1", "chain2", "chain3", "acc_p_minus_1", "acc_p", "acc_p_plus_1", "acc_2_130_minus_1", "acc_2_130",
            "acc_2_130_plus_4", "max_carry"]
+
+
+# ---------------------------------------------------------------------------------------------------------------------------------------
+# Any key (r of full size): a Python model of the limb code (mirrors Poly1305Donna.tla; input selection only) and backward solving through the
+# blocks.  The integer value of the limb state after a block is (S mod 2^130) + 5 * (S >> 130) with S = sum x_i * rho_i congruent to X * r
+# (X the integer value of state + block); it equals the residue w or w + p, and is w + p exactly when w is below five times the quotient -
+# so a final accumulator in [p, 2^130 + 2^30) is reached by choosing the residue small, for whatever r the key gives.
+class Donna:
+    def __init__(self, key):
+        t = int.from_bytes(bytes(key[:16]), "little")
+        self.r = [t & 0x3ffffff, (t >> 26) & 0x3ffff03, (t >> 52) & 0x3ffc0ff, (t >> 78) & 0x3f03fff, (t >> 104) & 0x00fffff]
+        self.rint = sum(x << (26 * i) for i, x in enumerate(self.r))
+        self.pad = int.from_bytes(bytes(key[16:32]), "little")
+        self.h = [0] * 5
+        self.cov = set()
+
+    def value(self):
+        return sum(x << (26 * i) for i, x in enumerate(self.h))
+
+    def block(self, m, hibit=1):
+        t = int.from_bytes(bytes(m), "little")
+        h = [self.h[i] + ((t >> (26 * i)) & M26) for i in range(4)] + [self.h[4] + (t >> 104) + (hibit << 24)]
+        r = self.r
+        s = [0] + [5 * x for x in r[1:]]
+        d = [h[0] * r[0] + h[1] * s[4] + h[2] * s[3] + h[3] * s[2] + h[4] * s[1],
+             h[0] * r[1] + h[1] * r[0] + h[2] * s[4] + h[3] * s[3] + h[4] * s[2],
+             h[0] * r[2] + h[1] * r[1] + h[2] * r[0] + h[3] * s[4] + h[4] * s[3],
+             h[0] * r[3] + h[1] * r[2] + h[2] * r[1] + h[3] * r[0] + h[4] * s[4],
+             h[0] * r[4] + h[1] * r[3] + h[2] * r[2] + h[3] * r[1] + h[4] * r[0]]
+        c = d[0] >> 26
+        o = [d[0] & M26]
+        for k in range(1, 5):
+            e = d[k] + c
+            o.append(e & M26)
+            c = e >> 26
+        if c:
+            self.cov.add("blk_wrap")
+        f0 = o[0] + 5 * c
+        o[0] = f0 & M26
+        if f0 >> 26:
+            self.cov.add("blk_h0_carry")
+        o[1] += f0 >> 26
+        if o[1] >> 26:
+            self.cov.add("blk_h1_unnormalised")
+        self.h = o
+
+    def mac(self, msg):
+        n = len(msg) // 16
+        for k in range(n):
+            self.block(msg[16 * k:16 * k + 16])
+        if len(msg) % 16:
+            self.block(list(msg[16 * n:]) + [1] + [0] * (15 - len(msg) % 16), 0)
+        return self.finish_cov()
+
+    def finish_cov(self):
+        h = list(self.h)
+        cov = set(self.cov)
+        c = h[1] >> 26; h[1] &= M26
+        if c: cov.add("fin_c1")
+        h[2] += c; c = h[2] >> 26; h[2] &= M26
+        if c: cov.add("fin_c2")
+        h[3] += c; c = h[3] >> 26; h[3] &= M26
+        if c: cov.add("fin_c3")
+        h[4] += c; c = h[4] >> 26; h[4] &= M26
+        if c: cov.add("fin_wrap")
+        a1 = h[1]
+        h[0] += 5 * c; c = h[0] >> 26; h[0] &= M26
+        if c:
+            cov.add("fin_h0_carry")
+            if a1 & 1: cov.add("fin_h0_carry_h1_odd")
+        h[1] += c
+        v = sum(x << (26 * i) for i, x in enumerate(h))
+        cov.add("sel_ge_p" if v >= P130 else "sel_lt_p")
+        t = (v - P130 if v >= P130 else v) & ((1 << 128) - 1)
+        for k in range(1, 4):
+            lo = (1 << (32 * k)) - 1
+            if (t & lo) + (self.pad & lo) > lo and (((t >> (32 * k)) + (self.pad >> (32 * k))) & 0xffffffff) == 0xffffffff:
+                cov.add("pad_carry_into_saturated")
+        return cov
+
+
+def _pad_carry_target(rng, pad):
+    """a final accumulator whose low 128 bits make the closing 128-bit addition of the pad carry into a word whose sum is already 0xffffffff"""
+    k = rng.randrange(1, 4)
+    sw = [(pad >> (32 * i)) & 0xffffffff for i in range(4)]
+    w = [rng.getrandbits(32) for _ in range(4)]
+    w[k] = 0xffffffff - sw[k]
+    w[k - 1] = ((1 << 32) - sw[k - 1] + rng.randrange(0, 1 << 16)) & 0xffffffff if sw[k - 1] else w[k - 1]
+    return sum(x << (32 * i) for i, x in enumerate(w)) + (rng.randrange(0, 3) << 128)
+
+
+GENERIC_CLASSES = {
+    # name: (final accumulator family, required classes, forbidden classes)
+    "g_acc_p": (lambda rng: P130 + rng.randrange(0, 5), {"sel_ge_p"}, {"fin_wrap"}),
+    "g_wrap": (lambda rng: (1 << 130) + rng.randrange(0, 2000), {"fin_wrap", "sel_lt_p"}, {"fin_h0_carry"}),
+    "g_h0_carry": (lambda rng: (1 << 130) + (1 << 26) - rng.randrange(1, 6), {"fin_wrap", "fin_h0_carry"}, set()),
+    "g_h0_carry_h1_odd": (lambda rng: (1 << 130) + (1 << 27) - rng.randrange(1, 6), {"fin_wrap", "fin_h0_carry_h1_odd"}, set()),
+    "g_chain1": (lambda rng: (rng.getrandbits(76) << 52) | (rng.randrange(1, 1 << 25) << 52) | (rng.randrange(0, 3) << 26) | rng.getrandbits(26), {"fin_c1"}, {"fin_c2"}),
+    "g_chain2": (lambda rng: (rng.getrandbits(50) << 78) | (rng.randrange(1, 1 << 25) << 78) | (rng.randrange(0, 3) << 26) | rng.getrandbits(26), {"fin_c1", "fin_c2"}, {"fin_c3"}),
+    "g_chain3": (lambda rng: (rng.randrange(1, 1 << 25) << 104) | (rng.randrange(0, 3) << 26) | rng.getrandbits(26), {"fin_c1", "fin_c2", "fin_c3"}, {"fin_wrap"}),
+    "g_below_p": (lambda rng: P130 - rng.randrange(1, 4), {"sel_lt_p"}, {"fin_wrap"}),
+    "g_pad_carry": (_pad_carry_target, {"pad_carry_into_saturated"}, set()),
+}
+
+
+def craft_generic(cls, key, prefix, tail, rng, tries=400, randomise=True):
+    """a 16-byte block C (and, with `randomise`, a preceding random block) such that the MAC input prefix || [random block] || C || tail drives the limb
+    code's final state into class `cls` under the given 32-byte key; prefix and tail are whole 16-byte blocks.  Returns the blocks to insert or None."""
+    fam, need, forbid = GENERIC_CLASSES[cls]
+    base = Donna(key)
+    if base.rint == 0:
+        return None
+    rinv = pow(base.rint, -1, P130)
+    tb = [int.from_bytes(bytes(tail[16 * k:16 * k + 16]), "little") + (1 << 128) for k in range(len(tail) // 16)]
+    for _ in range(tries):
+        extra = [rng.randrange(256) for _ in range(16)] if randomise else []
+        d = Donna(key)
+        for k in range(len(prefix) // 16):
+            d.block(prefix[16 * k:16 * k + 16])
+        if extra:
+            d.block(extra)
+        hprev = d.value()
+        target = final = fam(rng, base.pad) if cls == "g_pad_carry" else fam(rng)
+        for b in reversed(tb):                             # state before a tail block: target * r^-1 - block (mod p), as a non-negative integer
+            target = (target * rinv - b) % P130
+        y0 = target * rinv % P130
+        for y in (y0, y0 + P130):
+            c = y - hprev - (1 << 128)
+            if 0 <= c < (1 << 128):
+                blk = list(c.to_bytes(16, "little"))
+                dd = Donna(key)
+                cov = dd.mac(list(prefix) + extra + blk + list(tail))
+                if dd.value() == final and need <= cov and not (forbid & cov):
+                    return extra + blk
+    return None
